@@ -8,7 +8,7 @@ import tempfile
 import time
 
 VERIF = "/verif"
-EVID = os.path.join(VERIF, "evidence")
+EVID = os.environ.get("VERIF_EVIDENCE_DIR") or os.path.join(VERIF, "evidence")      # scratch directory when evaluating seeded changes
 REPLAYS = os.path.join(EVID, "replays")
 KNOWN = os.path.join(VERIF, "known_findings.json")
 
